@@ -27,6 +27,7 @@ func init() {
 		{Name: "length-prefix-off-by-one", Rule: "R1.4", Where: "bindata", Edits: []Edit{{"wiretypes.go", "\t\ti += wuint16(len(v)).fill(data, i)", "\t\ti += wuint16(len(v) + 1).fill(data, i)"}}},
 		{Name: "bool-not-written-into-last-byte", Rule: "R1.4", Where: "(wbool).fill", Edits: []Edit{{"wiretypes.go", "\tif len(data) >= i+1 {\n\t\tif v {", "\tif len(data) > i+1 {\n\t\tif v {"}}},
 		{Name: "u16-width-disagrees-with-encoder", Rule: "R1.4", Where: "wire type wuint16#width", Edits: []Edit{{"wiretypes.go", "func (v wuint16) width() int { return 2 }", "func (v wuint16) width() int { return 3 }"}}},
+		{Name: "raw-payload-never-copied", Rule: "R1.4", Where: "wire type rawdata", Edits: []Edit{{"wiretypes.go", "\tif len(data) >= i+v.width() {\n\t\treturn copy(data[i:], []byte(v))\n\t}\n\treturn v.width()", "\treturn v.width()"}}},
 		{Name: "u32-little-endian-decoder", Rule: "R1.4", Where: "wuint32", Edits: []Edit{{"wiretypes.go", "\t*v = wuint32(binary.BigEndian.Uint32(data))", "\t*v = wuint32(binary.LittleEndian.Uint32(data))"}}},
 		{Name: "unsubscribe-filter-list-decoded-once", Rule: "R1.1", Where: "Unsubscribe", Edits: []Edit{{"unsubscribe.go", "\t\tp.filters = append(p.filters, f)\n\t\tif b.i == len(data) {\n\t\t\tbreak\n\t\t}", "\t\tp.filters = append(p.filters, f)\n\t\tbreak"}}},
 		{Name: "subscription-ids-emitted-once", Rule: "R1.2", Where: "Publish", Edits: []Edit{{"publish.go", "\tfor j, _ := range p.subscriptionIDs {\n\t\ti += vbint(p.subscriptionIDs[j]).fillProp(b, i, SubscriptionID)\n\t}", "\tif len(p.subscriptionIDs) > 0 {\n\t\ti += vbint(p.subscriptionIDs[0]).fillProp(b, i, SubscriptionID)\n\t}"}}},
@@ -505,7 +506,30 @@ func (p *Prog) checkCodecPairing(c *Check) {
 				c.Bad("R1.4", cons, pos, strings.Join(why, "; "))
 			}
 		case "raw":
-			c.OK("R1.4", cons, pos, "whole input ↔ whole value (copy checked by C14 R14.1 and C10 R10.2)")
+			// encoder: the value itself is copied into the buffer at the offset
+			okCopy := false
+			if ebuf, eoff, _, _ := emissionsOf(p, enc); ebuf != nil {
+				for _, b := range enc.Blocks {
+					for _, ins := range b.Instrs {
+						call, ok := ins.(*ssa.Call)
+						if !ok {
+							continue
+						}
+						if bi, isB := call.Call.Value.(*ssa.Builtin); !isB || bi.Name() != "copy" {
+							continue
+						}
+						sl, isSl := call.Call.Args[0].(*ssa.Slice)
+						if isSl && sl.X == ssa.Value(ebuf) && sl.Low == ssa.Value(eoff) && sl.High == nil && stripConvs(call.Call.Args[1]) == ssa.Value(enc.Params[0]) {
+							okCopy = true
+						}
+					}
+				}
+			}
+			if okCopy {
+				c.OK("R1.4", cons, pos, "copy(buf[i:], v) ↔ whole input copied into the value (decoder side: C14 R14.1)")
+			} else {
+				c.Bad("R1.4", cons, pos, "the encoder does not copy the value into the buffer at the offset")
+			}
 		case "vbi":
 			c.OK("R1.4", cons, pos, "structural agreement of encoder and decoders: C15")
 		case "pair":
